@@ -27,7 +27,7 @@ import time
 import traceback
 import typing
 
-from . import lean
+from . import fingerprint, lean
 
 VERIF = os.path.abspath(os.path.join(os.path.dirname(__file__), '..', '..'))
 REPO = os.environ.get('FORML_REPO', '/repo')
@@ -86,6 +86,10 @@ class Check:
         self.notes: list[str] = []
         self.extra: dict = {}
         self._driver: typing.Optional[lean.Driver] = None
+        # files of the tree under test whose AST differs from the source the models were last validated against
+        # (harness/core/fingerprint.py); non-empty => the quick tier explores more cases before it answers
+        self.changed_sources: list[str] = []
+        self.escalation: float = 1.0
 
     # ---- hooks for the property module ------------------------------------------------------
     def gen_tables(self) -> dict[str, str]:
@@ -112,7 +116,13 @@ class Check:
         return self.tier == 'quick'
 
     def n(self, quick: int, thorough: int) -> int:
-        return quick if self.quick else thorough
+        """Case count by tier. In the quick tier, when the source under test is not the source the model was last
+        compared with (`changed_sources`), the count is raised by `escalation` (never beyond the thorough count)."""
+        if not self.quick:
+            return thorough
+        if self.escalation > 1 and thorough > quick:
+            return min(thorough, max(quick, int(quick * self.escalation)))
+        return quick
 
     def model(self, lines: list[str]) -> list[str]:
         """Pipe lines through the compiled Lean model driver (one answer per line)."""
@@ -184,6 +194,7 @@ def _write_evidence(chk: Check, wall: float, proof: dict, nviol: int, known: lis
         'correspondence_divergences': len(chk.divergences),
         'known_findings_reproduced': known,
         'notes': chk.notes,
+        'sources_changed_since_validation': chk.changed_sources,
     }
     coverage.update(chk.extra)
     ev = {
@@ -229,6 +240,14 @@ def run(cls: type[Check], argv=None) -> int:
 
     proof: dict = {}
     broken: list[str] = []
+    try:
+        chk.changed_sources = fingerprint.changed(REPO)
+    except Exception:  # pylint: disable=broad-except
+        chk.changed_sources = []
+    if chk.changed_sources:
+        chk.escalation = float(os.environ.get('VERIF_ESCALATE', '4') or 1)
+        chk.notes.append(f'source differs from the validated fingerprint in {len(chk.changed_sources)} file(s): '
+                         f'{", ".join(chk.changed_sources[:6])}; quick case counts raised x{chk.escalation:g}')
     try:
         # 1. generated tables
         for rel, content in chk.gen_tables().items():
